@@ -7,7 +7,8 @@ Definition placement_actual : pquirks := {|
   q_prefix_without_separator := true;
   q_path_relative_to_cwd := true;
   q_allow_dict_unsupported := true;
-  q_trailing_slash_depth := true |}.
+  q_trailing_slash_depth := true;
+  q_backslash_separator := true |}.
 
 Definition placement_source_actual : squirks := {|
   q_rules_toplevel_ignored := true;
